@@ -141,7 +141,10 @@ def main(prop, tier, seed, replay_path=None):
     B = 40
     for i in range(0, len(keys), B):
         chunk = keys[i:i + B]
-        res = replay_subprocess(prop, [uniq[k] for k in chunk])
+        if getattr(mod, 'REPLAY_ONE_PER_PROCESS', False):
+            res = [replay_subprocess(prop, [uniq[k]])[0] for k in chunk]
+        else:
+            res = replay_subprocess(prop, [uniq[k] for k in chunk])
         for k, (ok, obs) in zip(chunk, res):
             if not ok:      # retry alone in its own interpreter
                 ok, obs = replay_subprocess(prop, [uniq[k]])[0]
